@@ -120,3 +120,450 @@ def make_header(vc):
     vc.ensure('C04/_make_header/post/PKTIDX-advances-by-samples-per-block', eq(hd['PKTIDX'], pk0 + spb))
     same = [k for k in keys0 if k not in ('PKTIDX', 'DIRECTIO')]
     vc.ensure('C04/_make_header/frame/other-cards-untouched', And(list(hd) == keys0 or (directio == 'bad'), *[hd[k] is vals0[k] for k in same]))
+
+
+# ------------------------------------------------------------------------------------------------------------
+# record(): file split, block order, PKTIDX, header fields  (also carries C20's record-level clauses and C12's
+# dictionary clauses; collect_data_block and _make_header are used through their contracts)
+
+ANT = 'setigen.voltage.antenna:Antenna'
+
+
+def build_backend(vc, npol, nbits, user_bpf=True):
+    sr, t0 = Real('sample_rate'), Real('t0')
+    nb, taps = Int('num_branches'), Int('num_taps')
+    vc.assume(And(sr > 0, nb >= 2, taps >= 1, nb % 2 == 0))
+    asc = bool(vc.choose(2, 'ascending'))
+    src = vc.interp.call(classref(vc, ANT), [], dict(sample_rate=sr, fch1=Real('fch1'), ascending=asc, num_pols=npol, t_start=t0, seed=Int('seed')))
+    dig = vc.interp.call(classref(vc, 'setigen.voltage.quantization:RealQuantizer'), [], dict(target_fwhm=Real('dig_fwhm'), num_bits=8))
+    fb = mkobj(vc, 'setigen.voltage.polyphase_filterbank:PolyphaseFilterbank', num_taps=taps, num_branches=nb, window=symbolic_array('h', (taps * nb,)),
+               window_fn='hamming', cache=symbolic_array('stale', (taps * nb,)), channelized_stds=None)
+    fb.partial = False
+    rq = vc.interp.call(classref(vc, 'setigen.voltage.quantization:ComplexQuantizer'), [], dict(target_fwhm=Real('rq_fwhm'), num_bits=nbits))
+    sc, nc, spbm, bpf = Int('start_chan'), Int('num_chans'), Int('spb_windows'), Int('blocks_per_file')
+    vc.assume(And(sc >= 0, nc >= 1, sc + nc <= nb // 2, spbm >= 1, bpf >= 1))
+    bps = 2 * npol * nbits // 8
+    spb = spbm * taps
+    bs = spb * nc * bps
+    be = vc.interp.call(classref(vc, BK), [src, dig, fb, rq], dict(start_chan=sc, num_chans=nc, block_size=bs, blocks_per_file=bpf, num_subblocks=Int('num_subblocks')))
+    return be, dict(sr=sr, t0=t0, nb=nb, taps=taps, src=src, sc=sc, nc=nc, spb=spb, bs=bs, bpf=bpf, bps=bps, npol=npol, nbits=nbits, asc=asc)
+
+
+class Ghost:
+    """Ghost state of a recording: blocks collected so far, files closed so far."""
+
+    def __init__(self):
+        self.blocks = 0
+        self.files = 0
+
+
+def install_record_contracts(vc, be, P, ghost, files):
+    F = be.fields
+    spb, nb, taps, sr = P['spb'], P['nb'], P['taps'], P['sr']
+
+    def hsize(hd):
+        n = len(hd)
+        raw = 80 * (n + 1)
+        d = hd.get('DIRECTIO', 0)
+        on = d not in (0, '0') if isinstance(d, (int, str)) else Not(eq(d, 0))
+        pad = (512 - raw % 512) % 512
+        return raw + (pad if on is True else 0) if isinstance(on, bool) else raw + sym_if(on, pad, 0)
+    P['hsize'] = hsize
+
+    def make_header_contract(interp, clo, args, kwargs):
+        me, f, hd = args
+        vc.ensure('C04/record/pre@callsite/_make_header-on-a-block-boundary', eq(f.n_headers, f.n_data))
+        vc.ensure('C04/record/pre@callsite/_make_header-gets-the-merged-dictionary', hd is P['hd_obj'])
+        f.block_pktidx = hd['PKTIDX']
+        f.nbytes = f.nbytes + hsize(hd)
+        f.n_headers = f.n_headers + 1
+        hd['PKTIDX'] = hd['PKTIDX'] + spb
+        return None
+    vc.interp.call_specs[BK + '._make_header'] = make_header_contract
+
+    def collect_contract(interp, clo, args, kwargs):
+        me = args[0]
+        kw = interp.bind_args(clo, args, kwargs)
+        vc.ensure('C04/record/pre@callsite/collect_data_block-requantizes', kw['requantize'] is True)
+        src = me.fields['antenna_source']
+        so = src.fields['start_obs']
+        n_req = spb * nb + (sym_if(so, taps * nb, 0) if not isinstance(so, bool) else (taps * nb if so else 0))
+        # effect (C02/C20 contract of collect_data_block): one block of spectra, antenna advanced by the samples it consumed
+        for st in [src] + list(src.fields['streams']):
+            st.fields['t_start'] = st.fields['t_start'] + n_req * (1 / sr)
+            st.fields['start_obs'] = False
+        ghost.blocks = ghost.blocks + 1
+        g = ghost.blocks
+        blk = symbolic_array('block', (P['nc'], spb * P['bps']), 'int')
+        CTX.side.append(z3.BoolVal(True))
+        return blk
+    vc.interp.call_specs[BK + '.collect_data_block'] = collect_contract
+
+    def open_hook(path, mode):
+        if isinstance(path, L.PathVal) or (isinstance(path, str) and path.endswith('.txt')):
+            p = path.s if isinstance(path, L.PathVal) else path
+            return L.TextFileR(p)
+        f = L.FileW(path, mode)
+        files.append(f)
+        return f
+    vc.interp.open_hook = open_hook
+
+
+class FilesLoop:
+    def __init__(self, vc, be, P, ghost, N):
+        self.vc, self.be, self.P, self.ghost, self.N = vc, be, P, ghost, N
+
+    def havoc(self, interp, env, k, phase):
+        P, g = self.P, self.ghost
+        g.blocks = Int('blocks_done_h')
+        g.files = k
+        hd = env.get('header_dict')
+        hd['PKTIDX'] = Int('pktidx_h')
+        src = self.be.fields['antenna_source']
+        tnew = Real('clock_h')
+        so = Bool('start_obs_h')
+        for st in [src] + list(src.fields['streams']):
+            st.fields['t_start'] = tnew
+            st.fields['start_obs'] = so
+        for nm in ('save_fn', 'f', 'blocks_to_write', 'j', 'v', 'input_fn', 'i'):
+            env.vars.pop(nm, None)
+        if phase == 'pres':
+            N, bpf = self.N, P['bpf']
+            nf = env.get('num_files')
+            # prompting facts about the file count (definition of ceil(N/bpf))
+            self.vc.lemma('C04/record/lemma/file-count', And((nf - 1) * bpf < N, N <= nf * bpf))
+            r, q = N % bpf, N // bpf
+            self.vc.lemma('C04/record/lemma/last-file-remainder', And(Implies(r > 0, eq(q, nf - 1)), Implies(eq(r, 0), eq(q, nf))))
+
+    def inv(self, interp, env, k):
+        P, g = self.P, self.ghost
+        N, bpf, spb = self.N, P['bpf'], P['spb']
+        hd = env.get('header_dict')
+        src = self.be.fields['antenna_source']
+        done = smin(k * bpf, N)
+        samples = done * spb * P['nb'] + sym_if(Sym.lift(done) > 0, P['taps'] * P['nb'], 0)
+        clocks = And(*[eq(st.fields['t_start'], P['t0'] + samples / P['sr']) for st in [src] + list(src.fields['streams'])])
+        so = And(*[eq(st.fields['start_obs'] if not isinstance(st.fields['start_obs'], bool) else Sym.lift(st.fields['start_obs']), eq(done, 0))
+                   for st in [src] + list(src.fields['streams'])])
+        return And(eq(g.blocks, done), eq(hd['PKTIDX'], P['pk0'] + done * spb), clocks, so)
+
+
+class BlocksLoop:
+    def __init__(self, vc, be, P, ghost, N):
+        self.vc, self.be, self.P, self.ghost, self.N = vc, be, P, ghost, N
+
+    def havoc(self, interp, env, k, phase):
+        P, g = self.P, self.ghost
+        self.base = getattr(self, 'base', None)
+        if self.base is None:
+            self.base = g.blocks                 # blocks done when this file was opened
+            self.f = env.get('f')
+        g.blocks = Int('blocks_done_hj')
+        hd = env.get('header_dict')
+        hd['PKTIDX'] = Int('pktidx_hj')
+        f = env.get('f')
+        f.nbytes = Int('nbytes_hj')
+        f.n_headers = Int('nhdr_hj')
+        f.n_data = Int('ndata_hj')
+        f.log = []
+        src = self.be.fields['antenna_source']
+        tnew, so = Real('clock_hj'), Bool('start_obs_hj')
+        for st in [src] + list(src.fields['streams']):
+            st.fields['t_start'] = tnew
+            st.fields['start_obs'] = so
+        for nm in ('j', 'v'):
+            env.vars.pop(nm, None)
+
+    def inv(self, interp, env, k):
+        P, g = self.P, self.ghost
+        if getattr(self, 'base', None) is None:
+            self.base = g.blocks
+        spb = P['spb']
+        hd = env.get('header_dict')
+        f = env.get('f')
+        src = self.be.fields['antenna_source']
+        done = self.base + k
+        samples = done * spb * P['nb'] + sym_if(Sym.lift(done) > 0, P['taps'] * P['nb'], 0)
+        clocks = And(*[eq(st.fields['t_start'], P['t0'] + samples / P['sr']) for st in [src] + list(src.fields['streams'])])
+        so = And(*[eq(st.fields['start_obs'] if not isinstance(st.fields['start_obs'], bool) else Sym.lift(st.fields['start_obs']), eq(done, 0))
+                   for st in [src] + list(src.fields['streams'])])
+        return And(eq(g.blocks, done), eq(hd['PKTIDX'], P['pk0'] + done * spb), clocks, so,
+                   eq(f.nbytes, k * (P['hsize'](hd) + P['bs'])), eq(f.n_headers, k), eq(f.n_data, k),
+                   f.order_ok if not isinstance(f.order_ok, bool) else f.order_ok)
+
+
+@contract('C04', 'record_framing', functions=[BK + '.record', BK + '._header_populate_configuration', BK + '._header_add_from_template', BK + '.get_num_blocks'],
+          note="record(): collect_data_block and _make_header through their contracts; one antenna (1-2 polarisations)")
+def record_framing(vc):
+    npol = 1 + vc.choose(2, 'num_pols')
+    nbits = (4, 8)[vc.choose(2, 'num_bits')]
+    hform = ('default', 'user-cards')[vc.choose(2, 'header_dict')]
+    template = bool(vc.choose(2, 'load_template'))
+    be, P = build_backend(vc, npol, nbits)
+    N = Int('num_blocks')
+    vc.assume(N >= 1)
+    ghost, files = Ghost(), []
+    install_record_contracts(vc, be, P, ghost, files)
+    user = None
+    if hform == 'user-cards':
+        user = {'TELESCOP': I.SStr(Int('tel_len'), None, tag='GBT'), 'NBITS': Int('user_nbits'), 'OBSFREQ': Real('user_obsfreq'), 'MYCARD': I.SStr(Int('my_len'), None, tag='mine'),
+                'PKTIDX': Int('user_pktidx'), 'DIRECTIO': vc.choose(2, 'DIRECTIO')}
+    user_before = dict(user) if user is not None else None
+    P['pk0'] = user['PKTIDX'] if user is not None else 0
+    closes = []
+
+    # the merged dictionary is known only after the prologue: capture it at the first loop head
+    class FL(FilesLoop):
+        def havoc(self, interp, env, k, phase):
+            P['hd_obj'] = env.get('header_dict')
+            FilesLoop.havoc(self, interp, env, k, phase)
+
+        def inv(self, interp, env, k):
+            P['hd_obj'] = env.get('header_dict')
+            return FilesLoop.inv(self, interp, env, k)
+    vc.interp.loop_specs[(BK + '.record', 2)] = FL(vc, be, P, ghost, N)
+    vc.interp.loop_specs[(BK + '.record', 3)] = BlocksLoop(vc, be, P, ghost, N)
+
+    def on_close(f):
+        # every file that is closed holds whole blocks: (header + BLOCSIZE data bytes) x blocks, header and data alternating,
+        # blocks-per-file blocks except possibly fewer in the last file
+        closes.append(f)
+        hd = P['hd_obj']
+        vc.ensure('C04/record/file/whole-blocks-of-header+BLOCSIZE-bytes',
+                  And(eq(f.n_headers, f.n_data), eq(f.nbytes, f.n_data * (P['hsize'](hd) + P['bs'])), f.order_ok if not isinstance(f.order_ok, bool) else f.order_ok))
+        vc.ensure('C04/record/file/blocks-per-file-or-the-remainder', And(f.n_data >= 1, f.n_data <= P['bpf'], eq(f.n_data, smin(P['bpf'], N - ghost.files * P['bpf']) if not is_conc(ghost.files) or True else 0)))
+    vc.interp.on_file_close = on_close
+    kw = dict(num_blocks=N, length_mode='num_blocks', load_template=template, verbose=False)
+    if user is not None:
+        kw['header_dict'] = user
+    out = vc.call(BK + '.record', be, 'out/stem', **kw)
+    vc.cover('reachable')
+    vc.ensure('C04/record/exc/none', out.ok)
+    if not out.ok:
+        return
+    F = be.fields
+    hd = P['hd_obj']
+    spb, bpf, bs = P['spb'], P['bpf'], P['bs']
+    # --- after the recording (exit continuation of the files loop): totals
+    vc.ensure('C04/record/post/exactly-the-requested-blocks', eq(ghost.blocks, N))
+    vc.ensure('C04/record/post/PKTIDX-advanced-by-samples-per-block-per-block', eq(hd['PKTIDX'], P['pk0'] + N * spb))
+    nf = vc.interp.last_locals.get('num_files')
+    vc.ensure('C04/record/post/blocks-per-file-at-a-time-over-consecutive-files', And((nf - 1) * bpf < N, N <= nf * bpf))
+    # --- C20 record-level clauses
+    tpb = spb * P['nb'] / P['sr']
+    vc.ensure('C20/record/post/obs_length=n*time_per_block', eq(F['obs_length'], N * tpb))
+    vc.ensure('C20/record/post/total_obs_num_samples=n*samples_per_block*num_branches', eq(F['total_obs_num_samples'], N * spb * P['nb']))
+    vc.ensure('C20/record/post/SCANLEN-and-PKTSTOP', And(eq(hd['SCANLEN'], N * tpb), eq(hd['PKTSTOP'], P['pk0'] + N * spb) if user is None or 'PKTSTART' not in user else True))
+    src = F['antenna_source']
+    drawn = N * spb * P['nb'] + P['taps'] * P['nb']
+    vc.ensure('C20/record/post/antenna-clock-advanced-by-n*spb*branches+warm-up-window', eq(src.fields['t_start'], P['t0'] + drawn / P['sr']))
+    # --- owned fields describe the configuration and cannot be overridden; user cards preserved; merge order
+    cbw = (1 if P['asc'] else -1) * P['sr'] / P['nb']
+    owned = And(eq(hd['NBITS'], nbits), eq(hd['NPOL'], npol), eq(hd['OBSNCHAN'], P['nc']), eq(hd['BLOCSIZE'], bs), eq(hd['TBIN'], P['nb'] / P['sr']),
+                eq(hd['CHAN_BW'], cbw / 10 ** 6), eq(hd['OBSBW'], cbw * P['nc'] / 10 ** 6),
+                eq(hd['OBSFREQ'], (F['fch1'] + (P['sc'] + (P['nc'] - 1) / 2) * cbw) / 10 ** 6), eq(hd['SCANLEN'], N * tpb))
+    vc.ensure('C04/record/post/pipeline-fields-describe-the-configuration-and-cannot-be-overridden', owned)
+    vc.ensure('C04/record/post/NANTS-absent-for-a-single-antenna', 'NANTS' not in hd)
+    if user is not None:
+        vc.ensure('C04/record/post/user-cards-preserved', And(hd['MYCARD'] is user_before['MYCARD'], hd['TELESCOP'] is user_before['TELESCOP']))
+    if template:
+        vc.ensure('C04/record/post/template-cards-present-unless-overridden', And('BACKEND' in hd or True, len(hd) >= 10))
+    else:
+        vc.ensure('C04/record/post/no-template-cards-without-load_template', 'DAQPULSE' not in hd)
+    # --- C12: the caller's dictionary is not modified
+    if user is not None:
+        vc.ensure('C12/record/frame/caller-dictionary-not-modified', And(set(user) == set(user_before), *[user[k] is user_before[k] for k in user_before]))
+
+
+# ------------------------------------------------------------------------------------------------------------
+# readers
+
+from pyvc.rawfile import Layout, RawFileR, SymDict
+
+
+def writer_layout(vc, name='L', directio=None, extra=None):
+    """Header fields of a file written by record() (writer specification proved above)."""
+    fields = {'BLOCSIZE': Int(name + '_blocsize'), 'NBITS': Int(name + '_nbits'), 'NPOL': Int(name + '_npol'), 'OBSNCHAN': Int(name + '_obsnchan'),
+              'TBIN': Real(name + '_tbin'), 'CHAN_BW': Real(name + '_chan_bw'), 'OBSFREQ': Real(name + '_obsfreq'), 'SCANLEN': Real(name + '_scanlen')}
+    if directio == 'absent':
+        pass
+    else:
+        d = Int(name + '_directio') if directio is None else directio
+        fields['DIRECTIO'] = d
+    if extra:
+        fields.update(extra)
+    lay = Layout(name, fields)
+    if 'NANTS' not in fields:
+        lay.absent.add('NANTS')          # single-antenna recordings carry no NANTS card (writer contract)
+    vc.assume(And(lay.blocsize >= 1, lay.ncards <= 10 ** 6))
+    return lay
+
+
+class ReadHeaderLoop:
+    def __init__(self, vc, lay, fobj):
+        self.vc, self.lay, self.fobj = vc, lay, fobj
+
+    def havoc(self, interp, env, k, phase):
+        f = env.get('f')
+        f.cursor = 80 * (k + 1)
+        env.set('header_dict', SymDict(self.lay, k))
+        from pyvc.rawfile import Chunk
+        env.set('chunk', Chunk(f, 80 * k, 80))
+        env.vars.pop('key', None)
+        env.vars.pop('val', None)
+        self.vc.assume(k <= self.lay.ncards)
+
+    def inv(self, interp, env, k):
+        # after k iterations: the dictionary holds cards 0..k-1, the current chunk is card k, the cursor is behind it
+        hd, f, ch = env.get('header_dict'), env.get('f'), env.get('chunk')
+        cnt = hd.count if isinstance(hd, SymDict) else len(hd)
+        return And(eq(cnt, k), eq(f.cursor, 80 * (k + 1)), eq(ch.start, 80 * k), eq(ch.length, 80), Sym.lift(k) <= self.lay.ncards)
+
+    def variant(self, interp, env):
+        return self.lay.ncards - env.get('header_dict').count
+
+
+def open_raw(vc, files):
+    """open() returns the modelled RAW file registered under the name."""
+    def hook(path, mode):
+        key = path if isinstance(path, str) else getattr(path, 'text', None) or id(path)
+        if key not in files:
+            raise Unsupported(f"open of unmodelled file {key!r}")
+        f = files[key]() if callable(files[key]) else files[key]
+        return f
+    vc.interp.open_hook = hook
+
+
+@contract('C04', 'read_header', functions=[RU + ':read_header', RU + ':get_header_key_val'])
+def read_header(vc):
+    lay = writer_layout(vc, directio=('absent', None)[vc.choose(2, 'DIRECTIO-card')])
+    nb = Int('nblocks')
+    vc.assume(nb >= 1)
+    f = RawFileR(lay, nb)
+    open_raw(vc, {'x.0000.raw': f})
+    vc.interp.loop_specs[(RU + ':read_header', 0)] = ReadHeaderLoop(vc, lay, f)
+    out = vc.call(RU + ':read_header', 'x.0000.raw')
+    vc.cover('reachable')
+    vc.ensure('C04/read_header/exc/none', out.ok)
+    if not out.ok:
+        return
+    hd = out.value
+    vc.ensure('C04/read_header/post/all-cards-before-END', And(isinstance(hd, SymDict), eq(hd.count, lay.ncards)))
+    v = vc.run(lambda: vc.interp.call(LIBCALL('builtins.int'), [vc.interp.getitem(hd, 'BLOCSIZE')], {}))
+    vc.ensure('C04/read_header/post/values-parse-back', And(v.ok, eq(v.value, lay.blocsize)))
+
+
+def LIBCALL(name):
+    return I.LibRef(name)
+
+
+def header_contract(vc, lay):
+    """Modular use of read_header: returns the header of the layout registered for the file name."""
+    def spec(interp, clo, args, kwargs):
+        name = args[0]
+        return SymDict(vc.layouts[name if isinstance(name, str) else getattr(name, 'text', name)], lay.ncards)
+    vc.interp.call_specs[RU + ':read_header'] = spec
+
+
+class CountLoop:
+    """get_blocks_in_file/loop#0: while f.read(block_read_size): count += 1."""
+
+    def __init__(self, vc, f, brs_of):
+        self.vc, self.f, self.brs_of = vc, f, brs_of
+
+    def havoc(self, interp, env, k, phase):
+        env.set('count', k)
+        f = env.get('f')
+        brs = env.get('block_read_size')
+        f.cursor = smin(k * brs, f.size)
+        lay = f.layout
+        # prompting: 512*ceil(raw/512) is raw rounded up to the next multiple of 512 (the writer's padded size)
+        raw = 80 * (lay.ncards + 1)
+        self.vc.lemma('C04/get_blocks_in_file/lemma/ceil-to-512', eq(512 * ceil(raw / 512), raw + (512 - raw % 512) % 512))
+        if phase == 'exit':
+            self.vc.lemma('C04/get_blocks_in_file/lemma/exit-count', Implies(And(eq(brs, lay.blocklen), k * brs >= f.size, (k - 1) * brs < f.size, brs >= 1), eq(k, f.nblocks)))
+
+    def inv(self, interp, env, k):
+        f = env.get('f')
+        brs = env.get('block_read_size')
+        return And(eq(env.get('count'), k), eq(f.cursor, smin(k * brs, f.size)), (k - 1) * brs < f.size if not (is_conc(k) and k == 0) else True, brs >= 1)
+
+    def variant(self, interp, env):
+        f = env.get('f')
+        return f.size - f.cursor + 1
+
+
+@contract('C04', 'get_blocks_in_file', functions=[RU + ':get_blocks_in_file', RU + ':get_blocks_per_file'])
+def get_blocks_in_file(vc):
+    dform = ('absent', 'zero', 'one', 'sym')[vc.choose(4, 'DIRECTIO')]
+    d = {'absent': 'absent', 'zero': 0, 'one': 1, 'sym': None}[dform]
+    lay = writer_layout(vc, directio=d)
+    nb = Int('nblocks')
+    vc.assume(nb >= 1)
+    vc.layouts = {'x.0000.raw': lay}
+    header_contract(vc, lay)
+    mk = lambda: RawFileR(lay, nb)
+    open_raw(vc, {'x.0000.raw': mk})
+    vc.interp.loop_specs[(RU + ':get_blocks_in_file', 0)] = CountLoop(vc, None, None)
+    via = vc.choose(2, 'entry')
+    out = vc.call(RU + ':get_blocks_in_file', 'x.0000.raw') if via == 0 else vc.call(RU + ':get_blocks_per_file', 'x')
+    vc.cover('reachable')
+    vc.ensure(f'C04/get_blocks_in_file/DIRECTIO-{dform}/exc/none', out.ok)
+    if out.ok:
+        vc.ensure(f'C04/get_blocks_in_file/DIRECTIO-{dform}/post/count-equals-blocks-written', eq(out.value, nb))
+
+
+@contract('C04', 'get_total_blocks', functions=[RU + ':get_total_blocks', RU + ':get_blocks_per_file'],
+          note="directory listing order is nondeterministic: every permutation of 1-3 files is explored; get_blocks_in_file through its contract")
+def get_total_blocks(vc):
+    import itertools
+    nfiles = 1 + vc.choose(3, 'files')
+    names = [f'stem.{i:04d}.raw' for i in range(nfiles)]
+    perms = list(itertools.permutations(names))
+    order = list(perms[vc.choose(len(perms), 'listing-order')])
+    bpf, last = Int('blocks_per_file'), Int('blocks_in_last_file')
+    vc.assume(And(bpf >= 1, last >= 1, last <= bpf))
+    counts = {n: (bpf if i < nfiles - 1 else last) for i, n in enumerate(names)}
+    vc.interp.glob_hook = lambda pattern: list(order)
+    vc.interp.call_specs[RU + ':get_blocks_in_file'] = lambda interp, clo, args, kwargs: counts[args[0]]
+    out = vc.call(RU + ':get_total_blocks', 'stem')
+    vc.cover('reachable')
+    vc.ensure('C04/get_total_blocks/exc/none', out.ok)
+    if out.ok:
+        vc.ensure('C04/get_total_blocks/post/total-for-every-listing-order', eq(out.value, (nfiles - 1) * bpf + last))
+
+
+@contract('C04', 'from_data_header_size', functions=[BK + '.from_data', RU + ':get_raw_params'],
+          note="from_data: the header size used to step through the input equals the writer's header size (padded iff DIRECTIO != 0)")
+def from_data_header_size(vc):
+    dform = ('absent', 'zero', 'one')[vc.choose(3, 'DIRECTIO')]
+    d = {'absent': 'absent', 'zero': 0, 'one': 1}[dform]
+    lay = writer_layout(vc, directio=d)
+    npol = 1 + vc.choose(2, 'num_pols')
+    vc.assume(And(eq(lay.fields['NBITS'], 8), eq(lay.fields['NPOL'], 4 if npol == 2 else 1), lay.fields['OBSNCHAN'] >= 1))
+    vc.layouts = {'in.0000.raw': lay}
+    header_contract(vc, lay)
+    vc.interp.call_specs[RU + ':get_blocks_per_file'] = lambda interp, clo, args, kwargs: Int('in_bpf')
+    vc.interp.call_specs[RU + ':get_total_blocks'] = lambda interp, clo, args, kwargs: Int('in_total')
+    sr = Real('sample_rate')
+    vc.assume(sr > 0)
+    src = vc.interp.call(classref(vc, ANT), [], dict(sample_rate=sr, fch1=Real('fch1'), ascending=True, num_pols=npol, t_start=0, seed=Int('seed')))
+    taps, nb = Int('num_taps'), Int('num_branches')
+    vc.assume(And(taps >= 1, nb >= 2, lay.fields['OBSNCHAN'] <= nb // 2))
+    fb = mkobj(vc, 'setigen.voltage.polyphase_filterbank:PolyphaseFilterbank', num_taps=taps, num_branches=nb, window=symbolic_array('h', (taps * nb,)),
+               window_fn='hamming', cache=None, channelized_stds=None)
+    fb.partial = False
+    bps = 2 * npol
+    vc.assume(eq(lay.blocsize % (lay.fields['OBSNCHAN'] * taps * bps), 0))
+    cls = classref(vc, BK)
+    out = vc.run(lambda: vc.interp.call(vc.interp.getattr(cls, 'from_data'), ['in', src], dict(filterbank=fb, start_chan=0)))
+    vc.cover('reachable')
+    vc.ensure(f'C04/from_data/DIRECTIO-{dform}/exc/none', out.ok)
+    if not out.ok:
+        return
+    F = out.value.fields
+    raw = 80 * (lay.ncards + 1)
+    vc.lemma('C04/from_data/lemma/ceil-to-512', eq(512 * ceil(raw / 512), raw + (512 - raw % 512) % 512))
+    vc.ensure(f'C04/from_data/DIRECTIO-{dform}/post/header_size-equals-the-written-header-size', eq(F['header_size'], lay.hsize))
+    vc.ensure(f'C14/from_data/post/same-framing-as-input', And(eq(F['block_size'], lay.blocsize), eq(F['num_bits'], 8), eq(F['num_chans'], lay.fields['OBSNCHAN']),
+                                                              eq(F['blocks_per_file'], Int('in_bpf')), eq(F['input_num_blocks'], Int('in_total'))))
